@@ -489,7 +489,9 @@ Definition csv_row (old : bool) (r : csvrow) : outcome abuild :=
     | [] => Err
     | k0 :: krest =>
       let complex := kind_is_complex k0 in
-      if complex && is_empty_list krest then Err
+      (* [old]: a complex kind without sub-selector kinds was refused here; now the complex
+         branch runs (no iterations if every column has one piece) (8591e12, owner of C15) *)
+      if old && complex && is_empty_list krest then Err
       else
       let okey := opt (c_key r) in
       let otdata := opt (c_tdata r) in
